@@ -469,15 +469,24 @@ func c41TreeCase(h *H, big int) {
 	h.Rec("built", "ok", Hex(doc))
 	// the document given to the iterator: as built, or with unknown members around "nodes"
 	in := doc
-	if rng.Intn(3) == 0 {
+	if rng.Intn(2) == 0 {
 		label += ",unknown-keys"
-		vals := []string{`1`, `"x"`, `"]}\"{"`, `{"nodes":[{"name":"no"}]}`, `[1,[2,{"a":"]"}]]`, `null`, `-1.5e3`, `{}`, `[]`, `"\\"`, `true`}
+		// values of every JSON kind, including the string "nodes", strings that look like
+		// structure, nested objects with a "nodes" key, arrays of strings "nodes"
+		vals := []string{`1`, `"x"`, `"]}\"{"`, `{"nodes":[{"name":"no"}]}`, `[1,[2,{"a":"]"}]]`, `null`, `-1.5e3`, `{}`, `[]`, `"\\"`, `true`,
+			`"nodes"`, `"nodes"`, `["nodes"]`, `["nodes",{"nodes":"nodes"}]`, `{"k":"nodes"}`, `{"nodes":"nodes"}`, `"\"nodes\":["`, `""`, `false`, `0`,
+			`[[],[[]],{"a":{}}]`, `"\u006eodes"`, `" nodes"`, `[null,true,"}"]`}
 		var pre, post []string
-		for i := 0; i < rng.Intn(3); i++ {
-			pre = append(pre, fmt.Sprintf(`"k%d":%s`, i, vals[rng.Intn(len(vals))]))
+		npre, npost := rng.Intn(4), rng.Intn(4)
+		if npre+npost == 0 {
+			npre = 1
 		}
-		for i := 0; i < rng.Intn(3); i++ {
-			post = append(post, fmt.Sprintf(`"z%d": %s`, i, vals[rng.Intn(len(vals))]))
+		keys := []string{"k%d", "contains%d", "nodes_%d", "Nodes%d", "node%ds"}
+		for i := 0; i < npre; i++ {
+			pre = append(pre, fmt.Sprintf(`"`+keys[rng.Intn(len(keys))]+`":%s`, i, vals[rng.Intn(len(vals))]))
+		}
+		for i := 0; i < npost; i++ {
+			post = append(post, fmt.Sprintf(`"z`+keys[rng.Intn(len(keys))]+`": %s`, i, vals[rng.Intn(len(vals))]))
 		}
 		body := doc[len(`{"nodes":[`) : len(doc)-len("]}\n")]
 		var sb bytes.Buffer
